@@ -38,6 +38,7 @@ HX = os.path.join(HB, "hx")
 NPROC = min(16, os.cpu_count() or 4)
 BAD = "( x42414443415345 )"
 NOORACLE = ("( i-2 )", "( i30 i-2 )")
+MODEL_FREE = {"life", "tls"}
 CRASH = "( x4352415348 )"
 HANG = "( x48414e47 )"
 
@@ -356,6 +357,11 @@ def run_both(prop, cases):
             out[idx] = {"impl": norm_obs(im), "model": norm_obs(mo[0]), "cm": mo[1], "ci": mo[2],
                         "stderr": errlist[k].get(j)}
             out[idx]["diverge"] = out[idx]["impl"] != out[idx]["model"]
+            if cases[idx].split(" ", 1)[0] in MODEL_FREE:
+                # observed on real sockets under real timing: judged by the extracted spec checker alone
+                out[idx]["model"] = "( model-free )"
+                out[idx]["diverge"] = False
+                out[idx]["cm"] = "1"
             if any(t in out[idx]["model"] for t in NOORACLE):
                 # the case carries no oracle answer for something the model needed: not a valid case
                 out[idx]["model"] = BAD
